@@ -231,6 +231,13 @@ func c12_1(c *core.Ctx, p *core.Prog) {
 	if !okInc {
 		msgs = append(msgs, "the batch id is not advanced by exactly 1")
 	}
+	// an id is consumed only by an emitted batch: no error return is reachable after the increment
+	for _, r := range core.Returns(a.produce) {
+		if len(r.Results) == 2 && !core.IsNilConst(r.Results[1]) && incStore != nil && core.Reachable(a.produce, incStore, r) {
+			msgs = append(msgs, fmt.Sprintf("%s: an error return is reachable after the batch id was advanced: a request that fails inside Produce consumes an id although nothing is emitted, so the ids of the emitted batches skip a number", p.Pos(r.Pos())))
+			break
+		}
+	}
 	for r, k := range countOnPaths(a.produce, isInc) {
 		if len(r.Results) == 2 && core.IsNilConst(r.Results[1]) {
 			if k.min != 1 || k.max != 1 {
@@ -889,7 +896,17 @@ func c12_6(c *core.Ctx, p *core.Prog) {
 	c.Check(len(msgs) == 0, "payload|fresh-copy", p.Pos(bytesC.Pos()), core.FuncName(fn), "the payload's Record is a fresh slice filled by copy from the buffer", strings.Join(msgs, "; "))
 	// Reset after the copy on every success path
 	msgs = nil
-	if reset == nil {
+	deferredReset := false
+	core.EachInstr(fn, func(i ssa.Instruction) {
+		if d, ok := i.(*ssa.Defer); ok {
+			if f := core.CalleeObj(d); core.IsMethodOf(f, "bytes", "Buffer", "Reset") {
+				deferredReset = true
+			}
+		}
+	})
+	if reset == nil && deferredReset {
+		msgs = append(msgs, "the buffer is reset by a defer, i.e. also when the IPC write fails: bytes the writer already produced (the Schema message of a new stream) are discarded and never written again, so the next payload of that schema id starts with a dictionary or record batch and cannot be decoded")
+	} else if reset == nil {
 		msgs = append(msgs, "the buffer is never reset: every payload would repeat all earlier bytes of the sub-stream")
 	} else {
 		if cp != nil && !core.Reachable(fn, cp, reset) {
